@@ -148,12 +148,15 @@ PROPS = {
     ),
     "C11": dict(
         title="Scalar splitting functions meet their contracts and always terminate",
-        verus=[],
+        verus=[("zz_ops", 60, "quick"), ("jq255e_split", 30, "quick"), ("gls254_split", 20, "quick")],
         kani=[("zz::k_zz_linear", "quick", "full-domain"), ("zz::k_zz256", "quick", "full-domain"), ("zz::k_zz384", "quick", "full-domain")],
         cases=["modint_split", "gfgen_split", "gls254_zeta_split", "jq255e_split_mu", "secp256k1_split_theta"],
-        level_text="The helper integers the endomorphism splits are built from (src/backend/w64/zz.rs: Zu128 abs / double_inc_abs / set_sub / set_sub_u32, Zu256 trunc128 / add_rsh224 / borrow, Zu384 set_add / trunc_and_rsh_cc for every shift 225..255) are proved by Kani on their full input domain. The split functions themselves (lattice reduction, rounded division) and termination are stand-in only; four genuine defects found there were repaired (known_findings.json).",
-        level_note="Lagrange reduction quality/termination and mul_divr_rounded are not under contract; the wide multiplications mul128x128 / mul256x128 are stand-in only (CBMC did not finish the multiplier equivalence).",
-        not_reached=["lagrange*_vartime, split_vartime, split_mu, split_theta, mul_divr_rounded", "Zu128::mul128x128, Zu256::mul256x128"],
+        level_text="Splitting along the curve endomorphism is proved by Verus for jq255e and GLS254, for every scalar: mul_divr_rounded returns exactly round(k*e/r) = floor((k*e + (r-1)/2)/r) on its documented domain (k < r, e < 2^127 - 2) using the special form of r (2^254 - r0 resp. 2^253 + r0); split_mu (jq255e), split_mu_inner / split_mu / split_mu_odd (GLS254) return (|k0|, sgn, |k1|, sgn) with k0 + k1*mu = k modulo r, sign words 0 / 0xFFFFFFFF, |k0|, |k1| < floor(((r-1)/2)*(u+v)/r) + 1 (below 2^127 for jq255e, about 2^126 for GLS254; the odd variant: odd values below twice that). The lattice argument (r = u^2 + v^2, mu = u/v, mu^2 = -1 mod r, rounding error at most (r-1)/2) is a lemma written out on the literal constants and checked by computation, so it is linear integer arithmetic. The fixed-width integers underneath (src/backend/w64/zz.rs) are proved by Verus from their bodies: Zu128 mul128x128, mul128x128trunc, abs, double_inc_abs, set_sub, set_sub_u32; Zu256 trunc128, mul256x128, add_rsh224, borrow; Zu384 set_add (the two wide multiplications are the ones CBMC could not finish); and by Kani on the full domain: the same linear operations plus Zu384::trunc_and_rsh_cc for every shift 225..255. split_vartime (Lagrange reduction, all scalar fields, termination) and secp256k1 split_theta (32-bit limb helpers nested in the function): stand-in only (hang detection by watchdog, unbalanced fractions, recombination and size checks).",
+        level_note="The split units use the zz.rs contracts as declared dependencies with exactly the texts unit zz_ops proves (paired by the driver); Zu384::trunc_and_rsh_cc is declared there for the one shift count used (Kani proves every shift); Scalar::encode / half / Sub, Zu256::decode are declared. Extraction options: destruct (destructuring assignment), localconst (const items inside a body).",
+        assumptions=["Zu384::trunc_and_rsh_cc: declared in the Verus units for n = 254 / 253; discharged by Kani (zz::k_zz384, every shift 225..255) - link by reading",
+                     "Scalar::encode (canonical 32-byte little-endian value below r), Scalar::half, &Scalar - Scalar, Zu256::decode: declared value-level contracts",
+                     "sval(Scalar::MU_PLUS_ONE) == mu + 1 (GLS254): declared (the constant is opaque in the unit)"],
+        not_reached=["lagrange*_vartime, ModInt256::split_vartime, gfgen split_vartime (macro with metavariables)", "secp256k1 split_theta / mul_divr_rounded (nested helper fns sub160, mul128_t160, abs128 cannot carry contracts)"],
     ),
     "C12": dict(
         title="Field division, inversion, square root and Legendre symbol are correct",
